@@ -167,13 +167,32 @@ theorem plainKV_mem {kvs : List (Val × Val)} (h : plainKV kvs = true) :
     · exact ⟨h.1.1, h.1.2⟩
     · exact ih h.2 a b hab
 
+theorem iterFreeL_mem {xs : List Val} (h : iterFreeL xs = true) : ∀ x ∈ xs, x.iterFree = true := by
+  induction xs with
+  | nil => simp
+  | cons y ys ih =>
+    simp [iterFreeL] at h; intro x hx; simp at hx
+    rcases hx with rfl | hx
+    · exact h.1
+    · exact ih h.2 x hx
+theorem iterFreeKV_mem {kvs : List (Val × Val)} (h : iterFreeKV kvs = true) :
+    ∀ a b, (a, b) ∈ kvs → a.iterFree = true ∧ b.iterFree = true := by
+  induction kvs with
+  | nil => simp
+  | cons y ys ih =>
+    obtain ⟨k, v⟩ := y
+    simp [iterFreeKV] at h; intro a b hab; simp at hab
+    rcases hab with ⟨rfl, rfl⟩ | hab
+    · exact ⟨h.1.1, h.1.2⟩
+    · exact ih h.2 a b hab
+
 theorem wf_shape {env : Env} {v : Val} (h : v.wf env = true) : v.shapeB env = true := by
   cases v <;> simp_all [Val.wf]
 
 /-- elements of the iteration view of a well-formed plain value are well-formed and plain -/
 theorem shape_int {env : Env} (hw : WfEnv env) (n : Int) : Val.shapeB env (.lit (.int n)) = true := by
   have := hw.intShape
-  simpa [Val.shapeB, Val.typeOf, Lit.kind, Val.iter, Val.items, Val.tupleItems] using this
+  simpa [Val.shapeB, Val.typeOf, Lit.kind, Val.iter, Val.items, Val.tupleItems, Val.hasAsdict] using this
 
 theorem wf_plain_iter {env : Env} (hw : WfEnv env) {v : Val} {xs : List Val} (h : v.wf env = true) (hp : v.plain = true)
     (hi : v.iter = some xs) : ∀ x ∈ xs, x.wf env = true ∧ x.plain = true := by
@@ -200,9 +219,43 @@ theorem wf_plain_iter {env : Env} (hw : WfEnv env) {v : Val} {xs : List Val} (h 
     · subst hi; intro x hx; simp at hx; obtain ⟨c, _, rfl⟩ := hx
       refine ⟨?_, by simp [Val.plain]⟩
       simp only [Val.wf] at h ⊢
-      simpa [Val.shapeB, Val.typeOf, Lit.kind, Val.iter, Val.items, Val.tupleItems] using h
+      simpa [Val.shapeB, Val.typeOf, Lit.kind, Val.iter, Val.items, Val.tupleItems, Val.hasAsdict] using h
     · subst hi; intro x hx; simp at hx; obtain ⟨b, _, rfl⟩ := hx
       exact ⟨by simp only [Val.wf]; exact shape_int hw _, by simp [Val.plain]⟩
+  | inst c => simp [Val.iter] at hi
+  | clsObj c => simp [Val.iter] at hi
+
+theorem wf_iterFree_iter {env : Env} (hw : WfEnv env) {v : Val} {xs : List Val} (h : v.wf env = true) (hp : v.iterFree = true)
+    (hi : v.iter = some xs) : ∀ x ∈ xs, x.wf env = true ∧ x.iterFree = true := by
+  cases v with
+  | coll c ys =>
+    simp [Val.iter] at hi; subst hi
+    simp [Val.wf] at h; simp [Val.iterFree] at hp
+    intro x hx; exact ⟨wfL_mem h.2 x hx, iterFreeL_mem hp x hx⟩
+  | tup c ys =>
+    simp [Val.iter] at hi; subst hi
+    simp [Val.wf] at h; simp [Val.iterFree] at hp
+    intro x hx; exact ⟨wfL_mem h.2 x hx, iterFreeL_mem hp x hx⟩
+  | mapping c kvs =>
+    simp [Val.iter] at hi; subst hi
+    simp [Val.wf] at h; simp [Val.iterFree] at hp
+    intro x hx
+    simp only [List.mem_map] at hx
+    obtain ⟨⟨a, b⟩, hm, rfl⟩ := hx
+    exact ⟨(wfKV_mem h.2 a b hm).1, (iterFreeKV_mem hp a b hm).1⟩
+  | ntup c ns ys =>
+    simp [Val.iter] at hi; subst hi
+    simp [Val.wf] at h; simp [Val.iterFree] at hp
+    intro x hx; exact ⟨wfL_mem h.2 x hx, iterFreeL_mem hp x hx⟩
+  | iterator c ys => simp [Val.iterFree] at hp
+  | lit l =>
+    cases l <;> simp [Val.iter] at hi
+    · subst hi; intro x hx; simp at hx; obtain ⟨c, _, rfl⟩ := hx
+      refine ⟨?_, by simp [Val.iterFree]⟩
+      simp only [Val.wf] at h ⊢
+      simpa [Val.shapeB, Val.typeOf, Lit.kind, Val.iter, Val.items, Val.tupleItems, Val.hasAsdict] using h
+    · subst hi; intro x hx; simp at hx; obtain ⟨b, _, rfl⟩ := hx
+      exact ⟨by simp only [Val.wf]; exact shape_int hw _, by simp [Val.iterFree]⟩
   | inst c => simp [Val.iter] at hi
   | clsObj c => simp [Val.iter] at hi
 
